@@ -301,6 +301,16 @@ def g_def(rng, dist):
             else:
                 dist["count:default"] += 1
             rels.append([ct, s])
+        if pt != "__root__" and rng.random() < 0.12:
+            # a CYCLE in the relation graph (folder -> folder): the recursion ends because the count is 0 with high probability
+            # (probability < 1 and none_value 0, at most one child)
+            back = rng.choice(names[: lvl + 1])
+            s = [["src", {"c": {"s": "cycle {hier_idx}"}}]]
+            if back in absent:
+                s.append(["ty", {"c": {"s": back}}])
+            s.append([":count", {"r": {"k": "rangeInt", "min": 1, "max": 2, "p": encp(rng.choice([0.15, 0.25])), "nv": {"i": 0}}}])
+            rels.append([back, s])
+            dist["cyclic_relation"] += 1
         relations.append([pt, rels])
     tail = relations[1:]
     rng.shuffle(tail)
@@ -650,7 +660,9 @@ def describe(x):
 
 
 def request(wire, typed, draws):
-    return {"op": "gen.build", "typed": typed, "types": wire.get("types") or [], "relations": wire["relations"], "draws": draws}
+    # fuel bounds the nesting depth of the model's recursion; `Gen.fuel_irrelevant`: any sufficient value gives the same tree
+    # (relation graphs may be cyclic: the depth is then decided by the draws)
+    return {"op": "gen.build", "typed": typed, "fuel": 80, "types": wire.get("types") or [], "relations": wire["relations"], "draws": draws}
 
 
 def evaluate(wire, typed, seed, has_bad):
